@@ -5,6 +5,7 @@
 package main
 
 import (
+	"math"
 	"math/rand"
 	"strings"
 	"time"
@@ -74,6 +75,9 @@ func run(c *core.Case, st *core.CaseStats, seed int64) {
 		args := make([]int, len(c.A))
 		for i := range c.A {
 			args[i] = core.RawInt(c.A[i])
+			if args[i] >= 1999999999 { // the specification's Huge / Huge - 1
+				args[i] = math.MaxInt - (2000000000 - args[i])
+			}
 		}
 		var got string
 		var gotInt int
